@@ -149,7 +149,7 @@ def programs_case(programs, tids):
 def run(ctx):
     res = core.Result()
     rng = ctx.rng
-    for i in range(ctx.pick(20, 250)):
+    for i in range(ctx.pick(24, 2000)):
         programs, tids = gen_programs(rng, pairs_everywhere=(i % 2 == 0))
         check_set(res, ctx, rng, programs, tids)
     # the canonical adversarial case, by construction: DATA(A) DATA(B) STRING(A) STRING(B) for both pair kinds
